@@ -85,8 +85,9 @@ def run_call(ctx, want_cancel):
     else:
         # C14 "Sends fail instead of blocking", "every API call returns": the sending half under a transport that stops
         # cooperating after k bytes, and messages the codec refuses
-        from . import p_frames
+        from . import p_frames, p_scalars
         p_frames.sendside(ctx, ("err", "ctxc", "ctxd"))
+        p_scalars.scalars(ctx, {"client_init_fail"}, [])      # a client that could not be configured: every API returns
         # "once Receive has reported an error it keeps reporting one": every response body of the Frames design check
         # read through a bidi stream, two more Receives after the end
         core.design_check(ctx, "MC_Frames", "MC_Frames.cfg")
